@@ -200,9 +200,35 @@ def c41_specs(ctx=None, thorough=False, seed=0):
     return s
 
 
+# temperature dependence of the synthesised brick behaviours of C42: X(T) = X0 (1 + a (T - 293.15))  (nu: X0 + a (T - 293.15))
+TDEP = {"E0": 150e9, "aE": -5e-4, "nu0": 0.3, "anu": 1e-4, "K0": 100e6, "aK": -3e-4, "n": 3.2, "R0": 150e6, "aR": -4e-4, "H0": 2e9, "aH": -2e-4}
+
+
+def brick_t(kind, theta=0.5):
+    d = TDEP
+    E = '"%r*(1+(%r)*(T-293.15))"' % (d["E0"], d["aE"])
+    nu = '"%r+(%r)*(T-293.15)"' % (d["nu0"], d["anu"])
+    hooke = 'stress_potential : "Hooke" {young_modulus : %s, poisson_ratio : %s}' % (E, nu)
+    if kind == "elasticity":
+        name = "VfBrickTElasticity"
+        brick = "@Brick StandardElasticity;\n@ElasticMaterialProperties {%s, %s};" % (E, nu)
+    elif kind == "norton":
+        name = "VfBrickTNorton"
+        brick = ('@Brick StandardElastoViscoPlasticity {\n  %s,\n  inelastic_flow : "Norton" {criterion : "Mises", '
+                 'K : "%r*(1+(%r)*(T-293.15))", n : %r}\n};' % (hooke, d["K0"], d["aK"], d["n"]))
+    else:
+        name = "VfBrickTPlasticity"
+        brick = ('@Brick StandardElastoViscoPlasticity {\n  %s,\n  inelastic_flow : "Plastic" {criterion : "Mises", '
+                 'isotropic_hardening : "Linear" {R0 : "%r*(1+(%r)*(T-293.15))", H : "%r*(1+(%r)*(T-293.15))"}}\n};'
+                 % (hooke, d["R0"], d["aR"], d["H0"], d["aH"]))
+    t = sub((TPL / "VfBrickT.mfront.in").read_text(), NAME=name, THETA=fl(theta), BRICK=brick)
+    return spec(name, t, kind="brick_t_" + kind, tangent=True, tdep=dict(TDEP))
+
+
 def c42_specs(thorough=False, seed=0):
     """behaviours of C41 that provide a consistent tangent operator"""
     base = [s for s in c41_specs(thorough=False) if s.get("tangent") or s["kind"] == "elasticity"]
+    base += [brick_t("elasticity"), brick_t("norton"), brick_t("plasticity")]
     if thorough:
         base += [repo_implicit_norton(k) for k in REPO_IMPLICIT if k != "ImplicitNorton_Broyden"]
     return base
@@ -229,9 +255,48 @@ def repo_ortho_svk():
                 key="repo:%s.mfront" % stem, kind="ortho_finite_strain", repo=True)
 
 
+ORTHO9 = (7.8e+10, 2.64233e+11, 3.32e+11, 0.13, 0.24, 0.18, 4.8e+10, 1.16418e+11, 7.8e+10)
+PLANE = "PlaneStress, PlaneStrain, GeneralisedPlaneStrain"
+
+
+def ortho_convention(conv, family):
+    """orthotropic elasticity, three distinct moduli and Poisson ratios.
+    family: computed (Default DSL, @ComputeStiffnessTensor<Altered>), required (Default DSL, @RequireStiffnessTensor<Altered>:
+    only meaningful with the Default convention, the caller gives the constants in the axes of the hypothesis),
+    brick (Implicit DSL, StandardElasticity brick, @ComputeStiffnessTensor<UnAltered>)"""
+    name = "VfOrtho%s_%s" % ({"computed": "C", "required": "R", "brick": "B"}[family], conv)
+    c9 = ", ".join(fl(x) for x in ORTHO9)
+    strain_hyps = "AxisymmetricalGeneralisedPlaneStrain, Axisymmetrical, " + PLANE + ", Tridimensional"
+    if conv == "Plate":
+        hyps = PLANE + ", Tridimensional"
+    elif family == "brick":
+        hyps = '".+"'
+    else:
+        hyps = strain_hyps  # no axial stress equation in the Default-DSL files: no generalised plane stress
+    elastic = ("@ProvidesSymmetricTangentOperator;\n@PredictionOperator {\n  static_cast<void>(smt);\n  Dt = D;\n}\n"
+               "@Integrator {\n  static_cast<void>(smt);\n  sig = D * (eto + deto);\n  if (computeTangentOperator_) {\n    Dt = D;\n  }\n}\n")
+    if family == "computed":
+        body = "@ComputeStiffnessTensor<Altered>{%s};\n" % c9 + elastic
+        how, dsl = "computed by @ComputeStiffnessTensor<Altered>", "Default"
+    elif family == "required":
+        body = "@RequireStiffnessTensor<Altered>;\n" + elastic
+        how, dsl = "required from the caller (@RequireStiffnessTensor<Altered>)", "Default"
+    else:
+        body = "@Epsilon 1e-14;\n@Brick StandardElasticity;\n@ComputeStiffnessTensor<UnAltered>{%s};\n" % c9
+        how, dsl = "computed by @ComputeStiffnessTensor<UnAltered> for the StandardElasticity brick", "Implicit"
+    t = sub((TPL / "VfOrthoConv.mfront.in").read_text(), DSL=dsl, NAME=name, CONV=conv, HOW=how, HYPS=hyps,
+            CONVOPT="" if conv == "Default" else "<%s>" % conv, BODY=body)
+    return spec(name, t, kind="ortho_convention", convention=conv, family=family, constants=list(ORTHO9))
+
+
+def ortho_convention_specs():
+    return [ortho_convention("Pipe", "computed"), ortho_convention("Plate", "computed"), ortho_convention("Default", "required"),
+            ortho_convention("Pipe", "brick"), ortho_convention("Plate", "brick")]
+
+
 def c44_specs(thorough=False, seed=0):
     s = [elasticity(), implicit_norton("NewtonRaphson"), norton_creep(), plasticity(), brick_plasticity(), norton_rk("rk4"),
-         ortho_elastic(True), ortho_elastic(False), repo_ortho_svk()]
+         ortho_elastic(True), ortho_elastic(False), repo_ortho_svk()] + ortho_convention_specs()
     if thorough:
         s += [brick_norton(), implicit_norton("LevenbergMarquardt"), norton_rk("rk54"), implicit_norton("NewtonRaphson_NumericalJacobian")]
     return s
